@@ -767,6 +767,11 @@ func (s *State) equalizedGroups(aName, bName string) bool {
 		s.findGroupOnDevice(bName)
 		return false
 	}
+	// Group from Netspoc has already been found on device.
+	// Must not use another group of device.
+	if gb.ready {
+		return ga.name == gb.name
+	}
 	la := ga.sub
 	lb := gb.sub
 	byOrig := func(_ *Config, c *cmd) string { return c.orig }
